@@ -994,6 +994,31 @@ class SymBytesBase:
         out.append(self._mk(self._cslice(last, n) if n > last else Conc(b"")))
         return out
 
+    def find(self, sub, start=0, end=None):
+        """first occurrence (forks on the candidate positions, left to right)"""
+        if isinstance(sub, str):
+            sub = sub.encode("latin1")
+        if isinstance(sub, SymBytesBase):
+            sub = sub.concrete()
+        if not isinstance(start, int) or not (end is None or isinstance(end, int)):
+            raise Inconclusive("find() with symbolic bounds")
+        n = len(self)
+        end = n if end is None else min(end, n)
+        k = len(sub)
+        i = max(start, 0)
+        while i + k <= end:
+            hit = self._cslice(i, i + k).eq_term(Conc(bytes(sub)))
+            if hit is True or (hit is not False and bool(hit)):
+                return i
+            i += 1
+        return -1
+
+    def index(self, sub, start=0, end=None):
+        r = self.find(sub, start, end)
+        if r < 0:
+            raise ValueError("subsection not found")
+        return r
+
     def __contains__(self, item):
         if isinstance(item, (int, SymInt)):
             n = len(self)
